@@ -956,7 +956,9 @@ func c08sweep(t *testing.T, root *vw.Rng, dir string) {
 		size int64
 		// bit ranges (raw, absolute) to sweep exhaustively
 	}
-	files := []sf{{"sweep-1", 1}, {"sweep-5", 5}, {"sweep-29", 29}, {"sweep-2blk", c08DL + 3}, {"sweep-3blk", 2*c08DL + 2}}
+	// the "-zero" files hold only zero bytes (holes): a zero fragment looks like an empty block with checksum 0
+	files := []sf{{"sweep-1", 1}, {"sweep-5", 5}, {"sweep-29", 29}, {"sweep-2blk", c08DL + 3}, {"sweep-3blk", 2*c08DL + 2},
+		{"sweep-7-zero", 7}, {"sweep-2blk-zero", c08DL + 6}}
 	for fi, s := range files {
 		if !vw.CaseSelected(s.name) {
 			continue
@@ -969,7 +971,9 @@ func c08sweep(t *testing.T, root *vw.Rng, dir string) {
 			t.Fatal(err)
 		}
 		data := make([]byte, s.size)
-		vw.Fill(data, uint64(fi)+77, 0)
+		if len(s.name) < 5 || s.name[len(s.name)-5:] != "-zero" {
+			vw.Fill(data, uint64(fi)+77, 0)
+		}
 		if n, err := f.WriteAt(data, 0); n != len(data) || err != nil {
 			t.Fatalf("c08 sweep: write failed: %d %v", n, err)
 		}
